@@ -35,6 +35,12 @@ theorem srun_world (T : STables) (ops : List SOp) (s : Session) :
     | none => simp [worldOps, h, stepWorld_none T s op h]
     | some o => simp [worldOps, h, stepWorld_some T s op o h, run]
 
+theorem worldOps_append (T : STables) (a b : List SOp) (s : Session) :
+    worldOps T s (a ++ b) = worldOps T s a ++ worldOps T (srun T s a) b := by
+  induction a generalizing s with
+  | nil => rfl
+  | cons op a ih => simp only [List.cons_append, worldOps, ih, srun_cons, List.append_assoc]
+
 /-! ## the loaded configuration only grows -/
 
 /-- what one entry of a section being loaded does: nothing (a shared entry that does not exist), a new `Param` object, or
